@@ -37,6 +37,9 @@ type Net struct {
 	// Blocked reports a network partition between the caller (by thread group) and a follower.
 	Blocked func(ownerGrp int, follower string) bool
 	Streams []*RepStream
+	// BreakBudget: how many times a replication connection may drop under a message; where is a
+	// choice the explorer enumerates
+	BreakBudget int
 }
 
 type grouper interface{ group() int }
@@ -132,9 +135,28 @@ func (c *repClient) Send(a *proto.Append) error {
 		}
 		return status.Error(codes.Canceled, "stream closed")
 	}
+	if c.st.net.breakNow() {
+		// the connection drops under this message: it is lost and both sides see the stream fail
+		c.st.Break()
+		return status.Error(codes.Unavailable, "transport is closing")
+	}
 	// deep copy like a wire would
 	vsched.Send(c.st.toServer)(a.CloneVT())
 	return nil
+}
+
+// breakNow decides, as an explorable environment choice, whether the connection drops at this message
+// (BreakBudget drops per execution at most; each costs one deviation).
+func (n *Net) breakNow() bool {
+	if n.BreakBudget <= 0 {
+		return false
+	}
+	sc := vsched.Active()
+	if sc == nil || sc.Choose(2, false) == 0 {
+		return false
+	}
+	n.BreakBudget--
+	return true
 }
 
 func (c *repClient) Recv() (*proto.Ack, error) {
@@ -199,6 +221,10 @@ func (s *repServer) Send(a *proto.Ack) error {
 	}
 	if s.st.net.OnAckSend != nil {
 		s.st.net.OnAckSend(s.st, a)
+	}
+	if s.st.net.breakNow() {
+		s.st.Break()
+		return status.Error(codes.Unavailable, "transport is closing")
 	}
 	vsched.Send(s.st.toClient)(a.CloneVT())
 	return nil
